@@ -41,16 +41,23 @@ class Tee(object):
 
 
 class PairSocketModule(object):
-    """stands in for the `socket` module inside fsm: socket() hands out a pre-connected end"""
-    AF_INET = socket.AF_INET
-    SOCK_STREAM = socket.SOCK_STREAM
-    error = socket.error
+    """stands in for the `socket` module inside fsm: the real module (constants, exception classes, everything else),
+    except that socket() and create_connection() hand out a pre-connected end"""
 
     def __init__(self, tee):
         self.tee = tee
+        self.error = socket.error
 
-    def socket(self, *a):
+    def socket(self, *a, **k):
         return self.tee
+
+    def create_connection(self, address, timeout=socket._GLOBAL_DEFAULT_TIMEOUT, source_address=None, **k):
+        if timeout is not socket._GLOBAL_DEFAULT_TIMEOUT:
+            self.tee.settimeout(timeout)
+        return self.tee
+
+    def __getattr__(self, name):
+        return getattr(socket, name)
 
 
 class ServerAE(aem.AEBase):
